@@ -8,7 +8,25 @@ CLAUSES = {1: "the program's output contains a Go panic / stack trace", 2: "the 
            4: "the terminal was not returned to the mode it was found in", 10: "model/implementation differ on the exit status"}
 
 
-def spawn(argv, env, cwd, mode, keys=None, wait_for=b"Listening on", timeout=8.0):
+def traffic(out, n):
+    """n HTTPS requests for /c against the address the program says it listens on (makes the program allocate: garbage collections happen)"""
+    import re, ssl
+    m = re.search(rb"https://127\.0\.0\.1:(\d+)/c", out)
+    if not m:
+        return
+    ctx = ssl.create_default_context(); ctx.check_hostname = False; ctx.verify_mode = ssl.CERT_NONE
+    for _ in range(n):
+        try:
+            c = ctx.wrap_socket(socket.create_connection(("127.0.0.1", int(m.group(1))), timeout=3))
+            c.sendall(b"GET /c HTTP/1.1\r\nHost: h\r\nConnection: close\r\n\r\n")
+            while c.recv(65536):
+                pass
+            c.close()
+        except OSError:
+            pass
+
+
+def spawn(argv, env, cwd, mode, keys=None, wait_for=b"Listening on", timeout=8.0, ntraffic=0):
     """mode: 'pty' (controlling pty on 0,1,2), 'pty-stdin-null' (controlling pty, stdin from /dev/null), 'notty' (no controlling terminal)."""
     if mode == "notty":
         p = subprocess.Popen(argv, env=env, cwd=cwd, stdin=subprocess.DEVNULL, stdout=subprocess.PIPE, stderr=subprocess.STDOUT, start_new_session=True)
@@ -45,8 +63,17 @@ def spawn(argv, env, cwd, mode, keys=None, wait_for=b"Listening on", timeout=8.0
             except OSError:
                 d = b""
             out += d
-        if keys and not sent and wait_for in out:
+        if keys and not sent and wait_for in out and (not ntraffic or b"/c | /bin/sh" in out):
             time.sleep(0.15)
+            if ntraffic:
+                traffic(out, ntraffic)
+                timeout += 10
+                time.sleep(0.2)
+                while select.select([master], [], [], 0.05)[0]:
+                    try:
+                        out += os.read(master, 65536)
+                    except OSError:
+                        break
             os.write(master, keys); sent = True
         p, st = os.waitpid(pid, os.WNOHANG)
         if p:
@@ -87,7 +114,7 @@ def cause_of(out):
     return 0
 
 
-def scenario(run, binp, k, mode, flags, faults, ending="eof"):
+def scenario(run, binp, k, mode, flags, faults, ending="eof", ntraffic=0):
     d = os.path.join(run.rundir, "s%d" % k)
     os.makedirs(d, exist_ok=True)
     open(os.path.join(d, "afile"), "w").write("x")
@@ -108,18 +135,26 @@ def scenario(run, binp, k, mode, flags, faults, ending="eof"):
     argv += ["-listen-address", listen]
     if "log" in flags or "log_bad" in faults:
         argv += ["-log", os.path.join(d, "afile", "x.log") if "log_bad" in faults else os.path.join(d, "ok.log")]
-    if "ctrl_i" in flags or "ctrl_i_missing" in faults:
+    if "ctrl_i_dangling" in faults:       # a source directory holding a script which has been lost (dangling link)
+        os.makedirs(os.path.join(d, "funcs"), exist_ok=True)
+        open(os.path.join(d, "funcs", "ok.sh"), "w").write("f() { :; }\n")
+        if not os.path.lexists(os.path.join(d, "funcs", "lost.sh")):
+            os.symlink(os.path.join(d, "gone-away.sh"), os.path.join(d, "funcs", "lost.sh"))
+        argv += ["-ctrl-i", os.path.join(d, "funcs")]
+    elif "ctrl_i" in flags or "ctrl_i_missing" in faults:
         argv += ["-ctrl-i", os.path.join(d, "nonexistent-dir") if "ctrl_i_missing" in faults else os.path.join(d, "afile")]
     for f in ("print-default-template", "print-ctrl-i", "h", "one-shell"):
         if f in flags:
             argv.append("-" + f)
     env = dict(os.environ, HOME=d, XDG_CACHE_HOME=os.path.join(d, "xdg"))
     env.pop("CURLREVSHELL_LOG", None)
+    if ntraffic:
+        env["GOGC"] = "1"                   # collect garbage eagerly: whatever only a finalizer keeps alive goes away during the session
     keys = {"eof": b"\x04", "ctrl-c": b"\x03"}.get(ending)
-    rc, out, same, tty = spawn(argv, env, d, mode, keys=keys if mode == "pty" else None)
+    rc, out, same, tty = spawn(argv, env, d, mode, keys=keys if mode == "pty" else None, ntraffic=ntraffic)
     if hold:
         hold.close()
-    return {"k": k, "mode": mode, "flags": sorted(flags), "faults": sorted(faults), "ending": ending, "rc": rc,
+    return {"k": k, "mode": mode, "flags": sorted(flags), "faults": sorted(faults), "ending": ending, "requests_served_before_exit": ntraffic, "rc": rc,
             "crash": (b"panic:" in out or b"goroutine " in out or b"SIGSEGV" in out), "cause": cause_of(out) if rc not in (0,) else 0,
             "termios_same": same, "tty": tty, "output": out[-600:].decode(errors="replace")}
 
@@ -128,10 +163,10 @@ def term(s):
     fl, fa = s["flags"], s["faults"]
     cfg = "{| print_template := %s; print_ctrl_i := %s; log_set := %s; ctrl_i_set := %s |}" % (
         str("print-default-template" in fl).lower(), str("print-ctrl-i" in fl).lower(),
-        str("log" in fl or "log_bad" in fa).lower(), str("ctrl_i" in fl or "ctrl_i_missing" in fa).lower())
+        str("log" in fl or "log_bad" in fa).lower(), str("ctrl_i" in fl or "ctrl_i_missing" in fa or "ctrl_i_dangling" in fa).lower())
     flt = "{| no_tty := %s; bad_listen := %s; cache_bad := %s; log_bad := %s; ctrl_i_missing := %s |}" % (
         str(s["mode"] == "notty").lower(), str(any(x.startswith("listen_") for x in fa)).lower(),
-        str(any(x.startswith("cache_") for x in fa)).lower(), str("log_bad" in fa).lower(), str("ctrl_i_missing" in fa).lower())
+        str(any(x.startswith("cache_") for x in fa)).lower(), str("log_bad" in fa).lower(), str("ctrl_i_missing" in fa or "ctrl_i_dangling" in fa).lower())
     return "mk %s %s Eof %d %s %d %s %s" % (cfg, flt, s["rc"], str(s["crash"]).lower(), s["cause"], str(s["tty"]).lower(), str(s["termios_same"]).lower())
 
 
@@ -155,11 +190,14 @@ def check(run):
             plan.append((mode, {info}, set()))
             plan.append((mode, {info}, {"listen_nonlocal", "cache_damaged", "log_bad"}))
         plan.append((mode, {"print-ctrl-i"}, {"ctrl_i_missing"}))
+        plan.append((mode, {"print-ctrl-i"}, {"ctrl_i_dangling"}))
         plan.append((mode, {"print-ctrl-i"}, set()))                         # no source configured
         plan.append((mode, {"print-ctrl-i", "ctrl_i"}, {"listen_nonlocal"}))    # source present: succeeds whatever the listener
         plan.append((mode, {"print-ctrl-i", "ctrl_i"}, {"log_bad"}))
     plan.append(("pty", set(), set(), "ctrl-c"))
     plan.append(("pty", {"log", "ctrl_i"}, set(), "ctrl-c"))
+    plan.append(("pty", set(), set(), "eof", 80))        # a session with some life in it (80 scripts served, eager GC) before the exit
+    plan.append(("pty", set(), set(), "ctrl-c", 80))
     import concurrent.futures as cf
     with cf.ThreadPoolExecutor(max_workers=8) as ex:
         results = list(ex.map(lambda kp: scenario(run, binp, kp[0], *kp[1]), list(enumerate(plan))))
@@ -170,10 +208,10 @@ def check(run):
     vlib.judge_stream(run, "scenarios", IMPORTS, "case", [{k: v for k, v in s.items() if k != "output"} for s in results], results,
                       lambda i, r: term(r), CLAUSES, (10,),
                       "the real binary, for every single start-up fault (non-local / in-use / port-less unusable listen address, damaged / unwritable "
-                      "certificate cache, unopenable log file, missing Ctrl+I source), pairs of them, each informational flag (-print-default-template, "
+                      "certificate cache, unopenable log file, missing Ctrl+I source, Ctrl+I source directory with a dangling link), pairs of them, each informational flag (-print-default-template, "
                       "-print-ctrl-i with and without source, -h) with and without faults, x three terminal situations: a controlling pty on stdin/stdout, a "
                       "controlling pty with stdin from /dev/null, no controlling terminal (setsid, /dev/null); normal exits by Ctrl+D and Ctrl+C typed into "
-                      "the pty and by EOF on stdin; exit status, panic text, cause named in the message and termios before/after are observed",
+                      "the pty and by EOF on stdin, also after a session in which 80 scripts were served with eager garbage collection (GOGC=1); exit status, panic text, cause named in the message and termios before/after are observed",
                       key_fn=lambda i: json.dumps([i["mode"], i["flags"], i["faults"], i["ending"]]), shard=12)
     run.assumptions += ["goxterm.MakeRaw/Restore act on the controlling terminal as documented; termios is compared through the pty's slave side",
                         "the cause is recognised in the message through the failing system call's wording (logfile, /dev/tty, certificate, bind)",
